@@ -320,6 +320,7 @@ def run(plan: dict) -> dict:
             param_sets = [{**params0, "double": a, "negate": b} for a in (False, True) for b in (False, True)]
             stats["probe_runtime_flag_programs"] += 1
         cases = [(xin, ps_) for xin in _inputs(program, plan.get("seed", 0)) for ps_ in param_sets]
+        refs_by_params: dict[str, Any] = {}
         if len(param_sets) > 1:
             cases = cases[: 2 * len(param_sets)]
         for j, (xin, params) in enumerate(cases):
@@ -334,11 +335,24 @@ def run(plan: dict) -> dict:
                 stats["jax_eager_failed"] += 1
                 jx = None
             literal_params = params == params0
-            if ref is not None and literal_params:
-                # (the undecorated export bakes input_params it never hands to a function, so
-                # it is comparable only under the values given at conversion time)
+            # the undecorated export bakes input_params it never hands to a function, so the
+            # reference for other runtime values is the undecorated export converted under THOSE values
+            ref_p = ref
+            if ref is not None and not literal_params:
+                pk = cm.canon(params)
+                if pk not in refs_by_params:
+                    try:
+                        with _without_function_plugins():
+                            rp_ = to_onnx(fn, spec, **{**kw, "input_params": dict(params)})
+                        refs_by_params[pk] = rp_ if len(rp_.functions) == 0 else None
+                        stats["reference_exports_for_other_runtime_values"] += 1
+                    except BaseException:  # noqa: BLE001
+                        refs_by_params[pk] = None
+                ref_p = refs_by_params[pk]
+            verdict.pop("ref", None)
+            if ref_p is not None:
                 try:
-                    rf = oracle.ort_run(ref, [xin], params)
+                    rf = oracle.ort_run(ref_p, [xin], params)
                     okr, msgr = oracle.compare(rf, got, rtol=rtol, atol=atol)
                     stats["compared_with_reference"] += 1
                     verdict["ref"] = okr
@@ -352,12 +366,19 @@ def run(plan: dict) -> dict:
                 stats["compared_with_jax"] += 1
                 verdict["jax"] = okj
                 if not okj:
-                    if verdict.get("ref") is True and literal_params:
+                    if verdict.get("ref") is True:
                         # decorated == undecorated, both differ from JAX: not a function-boundary matter (C01)
                         stats["probe_both_exports_differ_from_jax"] += 1
                     else:
-                        V("differs_from_jax", {"msg": msgj, "sites": program["sites"], "reference_available": ref is not None}, op)
-                        break
+                        # no undecorated reference for this case: eager JAX is the only oracle.  Confusing two
+                        # instances / bodies changes outputs by O(0.1..1); float32 LayerNorm/gelu noise between
+                        # ORT and XLA is O(1e-4) and is C01's matter, so the gate here is deliberately coarse.
+                        okl, msgl = oracle.compare(jx, got, rtol=1e-2, atol=2e-3) if not program.get("x64") else (False, msgj)
+                        if okl:
+                            stats["probe_jax_only_case_within_coarse_tolerance"] += 1
+                        else:
+                            V("differs_from_jax", {"msg": msgl, "sites": program["sites"], "reference_available": ref is not None}, op)
+                            break
         # ---- sharing soundness ----
         calls = [n for n in model.graph.node if (n.domain, n.op_type) in {(f.domain, f.name) for f in model.functions}]
         sites = program["sites"]
